@@ -59,7 +59,19 @@ def streams(seed, tier):
         if nm not in modelled: continue
         for _ in range(n):
             cases.append(stepgen.step_case(rng, nm, sorted(modelled), safe))
-    out.append(Stream("combinator-steps", "run", "run.check", cases, "one step of each control-flow instruction on random stack contents"))
+    # every combinator in tail position: what FOLLOWS on EXEC x whether the top CODE / EXEC items coincide
+    follow = [[], [I("CODE.POP")], [I("CODE.POP"), Z(99)], [I("EXEC.POP")], [I("CODE.DUP")], [I("NOOP")], [L(I("INDEX.INCREASE"), I("EXEC.LOOP"), I("NOOP"))],
+              [Z(1), L(I("INDEX.INCREASE"), I("CODE.LOOP"), L(Z(2)))], [L(Z(7), I("CODE.DO"))], [I("EXEC.K")], [I("EXEC.DUP"), I("EXEC.DUP")]]
+    progs = [L(Z(7), I("CODE.DO")), Z(5), L(), I("CODE.DUP"), L(I("CODE.DUP"), I("CODE.DO"))]
+    for nm in COMBINATORS:
+        if nm not in modelled: continue
+        for fo in follow:
+            for a in progs:
+                for b in (a, progs[(progs.index(a) + 1) % len(progs)]):
+                    st = dict(exec=[I(nm)] + fo, code=[a, b, Z(3)], bool=[True, False], int=[2, 0], index=[(1, 3), (0, 7)], name=["n"], float=[fbits(1.0)])
+                    cases.append(case_run(len(cases) % 2, state(**st), 0, 1))
+                    cases.append(case_run(len(cases) % 2, state(**st), 0, 4))
+    out.append(Stream("combinator-steps", "run", "run.check", cases, "one step of each control-flow instruction on random stack contents; each of them followed on EXEC by a pending CODE.POP / EXEC.POP / loop continuation / itself, with equal and unequal items on top of CODE (1 and 4 steps)"))
     # loops with richer bodies, step-by-step equality with the model
     cases = []
     bodies_ok = ["( 1 INTEGER.+ )", "( INDEX.CURRENT INTEGER.* )", "( TRUE BOOLEAN.NOT BOOLEAN.POP )", "( INDEX.CURRENT FLOAT.FROMINTEGER )", "NOOP", "( 2 INDEX.DEFINE EXEC.LOOP ( INDEX.CURRENT INTEGER.+ ) )"]
